@@ -5,8 +5,10 @@ patch="$1"; id="$2"; tier="${3:-quick}"
 cd /verif
 if [ -n "$(git -C /repo status --porcelain)" ]; then echo "repo dirty, abort"; exit 9; fi
 git -C /repo apply "$patch" || { echo "patch does not apply"; exit 9; }
+# the evidence file describes the unchanged tree: keep it across the seeded run
+[ -f evidence/$id.json ] && cp evidence/$id.json /tmp/try_seed.evidence.$id
 ./run.sh "$id" "$tier" > /tmp/try_seed.out 2>&1; rc=$?
 git -C /repo checkout -- . 
+[ -f /tmp/try_seed.evidence.$id ] && mv /tmp/try_seed.evidence.$id evidence/$id.json
 grep -E "^(VIOLATION|violation|INCONCLUSIVE|C[0-9]+ tier)" /tmp/try_seed.out | cut -c1-400
 echo "exit=$rc"
-# restore evidence of the unchanged tree later by re-running the check
